@@ -119,7 +119,7 @@ func c01TypedCond(rng *rand.Rand, m *markerGen, pfx string) condForm {
 	}
 	kind, tag := c01PickListType(rng)
 	n := c01PickLen(rng)
-	route := rng.Intn(13)
+	route := rng.Intn(14)
 	if route == 1 && n == 0 {
 		n = 2 // latitude: see file comment
 	}
@@ -164,6 +164,8 @@ func c01TypedCond(rng *rand.Rand, m *markerGen, pfx string) condForm {
 		return condForm{d("map{col: list}"), map[string]interface{}{bare: list}, nil, bound}
 	case 10:
 		return condForm{d("col = ?"), col + " = ?", []interface{}{list}, bound}
+	case 13:
+		return condForm{d("col IN ? []interface{}{list}"), col + " IN ?", []interface{}{[]interface{}{list}}, bound}
 	case 11:
 		return condForm{d("col IN (@v)"), col + " IN (@v)", []interface{}{sql.Named("v", list)}, bound}
 	default:
